@@ -17,7 +17,13 @@ def assertions(n, w, count):
     return tmpl[:count]
 
 
-def scenario(t, idx, seed=0):
+def scenario(rec, idx, seed=0):
+    """rec = {"t": statement, "asserts": assertion list computed by Stark.tla, "corruptions": [...]}"""
+    sc = _scenario(rec["t"], idx, seed, rec.get("asserts"))
+    return sc
+
+
+def _scenario(t, idx, seed=0, asserts=None):
     n = 2 ** t["ln"]
     w = t["width"]
     bits = t["bits"]
@@ -27,7 +33,7 @@ def scenario(t, idx, seed=0):
         "id": idx, "field": "f%d" % bits, "hasher": hs[idx % len(hs)], "ext": t["ext"],
         "shape": {"n": n, "width": w, "degs": t["degs"], "periodic": [t["cycles"][p - 1] for p in used],
                   "pcol": [used.index(p) if p > 0 else -1 for p in t["pcol"]],
-                  "asserts": assertions(n, w, t["nasserts"]), "exempt": t["k"], "mode": "std"},
+                  "asserts": asserts if asserts is not None else assertions(n, w, t["nasserts"]), "exempt": t["k"], "mode": "std"},
         "opts": {"q": t["q"], "blowup": 2 ** t["lb"], "grind": t["grind"], "fold": t["fold"], "rem": t["rem"]},
         "seed": seed * 1000003 + idx, "free_tail": idx % 2 == 1,
     }
